@@ -18,6 +18,17 @@ EXTENDS Integers, Sequences, FiniteSets, TLC, Json, IOUtils
 F == TLCEval(JsonDeserialize(IOEnv.HV_MAP_FILE))
 SeqToSet(q) == {q[k] : k \in 1..Len(q)}
 
+(* the limit a text mapping ENFORCES when it is called: every probe text longer than the box must be refused, every     *)
+(* shorter one accepted (probes: plain and negative-looking texts of length limit-1, limit, limit+1, limit+2)            *)
+ProbeErr(m) ==
+  LET lim == IF m.t_max >= 0 THEN m.t_max ELSE m.maxlen IN
+  IF lim < 0 THEN ""
+  ELSE IF \E k \in 1..Len(m.probes) : m.probes[k].len > lim /\ m.probes[k].outcome # "PDFValueTooLong"
+       THEN "a text longer than the box is not refused when the mapping is applied (the limit enforced is not the template's)"
+  ELSE IF \E k \in 1..Len(m.probes) : m.probes[k].len <= lim /\ m.probes[k].outcome # "ok"
+       THEN "a text that fits the box is refused"
+  ELSE ""
+
 JudgeMap(m) ==
   IF ~m.t_exists THEN "the mapped PDF field does not exist in the template"
   ELSE IF ~m.line_exists THEN "the mapped line does not exist"
@@ -26,6 +37,7 @@ JudgeMap(m) ==
   ELSE IF m.kind = "button" /\ m.truev \notin SeqToSet(m.t_on) THEN "check-box export value " \o m.truev \o " is not one the template offers"
   ELSE IF m.kind = "text" /\ m.t_max >= 0 /\ m.maxlen # m.t_max THEN "length limit " \o ToString(m.maxlen) \o " differs from the template's " \o ToString(m.t_max)
   ELSE IF m.kind = "choice" /\ m.t_opts # <<>> /\ ~(SeqToSet(m.choices) \subseteq SeqToSet(m.t_opts)) THEN "choice list offers values the template does not have"
+  ELSE IF m.kind = "text" THEN ProbeErr(m)
   ELSE ""
 
 JudgeGroup(g) == IF \E k \in 1..Len(g.rows) : Len(g.rows[k].on) > 1 THEN "two boxes of an exclusive group are on for one value of the driving line" ELSE ""
